@@ -553,6 +553,12 @@ Proof.
   apply sigmap_eqb_eq in He. subst l. split; [reflexivity | now apply Z.leb_le].
 Qed.
 
+Lemma submit_iff_threshold p pa sigs env_ok :
+  submits p pa sigs env_ok = true <-> ((threshold p pa <= count sigs)%Z /\ env_ok = true).
+Proof.
+  unfold submits, gate. rewrite andb_true_iff, negb_true_iff, Z.ltb_ge. tauto.
+Qed.
+
 Lemma beacon_threshold_value pa : (0 <= p_honest pa <= p_gsize pa)%Z ->
   threshold Beacon pa = (p_honest pa + (p_gsize pa - p_honest pa) / 2)%Z /\
   (p_honest pa <= threshold Beacon pa <= p_gsize pa)%Z.
@@ -599,3 +605,21 @@ Example support_example :
   support (fun k => k) stub_verify Beacon c raws = [(1, sg 1 9 1); (2, sg 2 9 1)] /\
   support (fun k => k) stub_verify Tecdsa c raws = [(1, sg 1 9 1); (2, sg 2 9 1); (3, sg 2 9 1)].
 Proof. vm_compute. split; reflexivity. Qed.
+
+(* the gate: the same five-seat group with H = 3 (beacon threshold 3 + (5-3)/2 = 4, quorum 4):
+   with members 2, 3, 4 supporting the set has 4 entries and every protocol submits; with member
+   4's signature invalid it has 3 entries: beacon and tecdsa (threshold 4) do not submit, the
+   inactivity claim (honest threshold 3) does *)
+Example submit_example :
+  let c := {| f_self := 1; f_ops := [1; 2; 2; 3; 4]; f_grp := {| g_size := 5; g_ia := []; g_dq := [] |};
+              f_session := 7; f_hash := 9; f_selfsig := 2 * (4096 * 1 + 9) + 1 |} in
+  let pa := {| p_gsize := 5; p_honest := 3; p_quorum := 4 |} in
+  let sg k h ok := 2 * (4096 * k + h) + ok in
+  let m i k ok := {| r_idx := i; r_key := k; r_pubkey := k; r_hash := 9; r_sig := sg k 9 ok; r_session := 7 |} in
+  let full := [m 2 2 1; m 3 2 1; m 4 3 1] in
+  let short := [m 2 2 1; m 3 2 1; m 4 3 0] in
+  let sub p raws := submits p pa (support (fun k => k) stub_verify p c raws) true in
+  (sub Beacon full, sub Tecdsa full, sub Inactivity full) = (true, true, true) /\
+  (sub Beacon short, sub Tecdsa short, sub Inactivity short) = (false, false, true) /\
+  threshold Beacon pa = 4%Z.
+Proof. vm_compute. repeat split; reflexivity. Qed.
